@@ -398,13 +398,14 @@ def walk(node, trail=()):
             yield from walk(v, trail + (i,))
 
 
-def trail_path(trail):
+def trail_path(trail, chain=None):
+    """chain[i] = the container holding trail[i] (given when a hash may have integer keys: those are key segments)."""
     s = ""
-    for ref in trail:
-        if isinstance(ref, int):
+    for i, ref in enumerate(trail):
+        if isinstance(ref, int) and not (chain is not None and isinstance(chain[i], dict)):
             s += "[%d]" % ref
         else:
-            s += ("." if s else "") + ref
+            s += ("." if s else "") + str(ref)
     return s
 
 
@@ -417,7 +418,7 @@ def check_tree(col, doc_text, trail, kw, n, data=None):
     for ref in trail:
         chain.append(chain[-1][ref])
     depth = len(trail)
-    base = trail_path(trail)
+    base = trail_path(trail, chain)
     inp = {"check": "tree", "doc": doc_text, "trail": list(trail), "kw": kw, "n": n}
 
     def coords_of(d):
@@ -513,7 +514,10 @@ def tree_docs(max_nodes, sample_size=0, rng=None):
     if sample_size:
         bigger = [t for t in gen.trees(max_nodes + 1, 4, **kw) if gen.size(t) > max_nodes]
         ts += rng.sample(bigger, min(sample_size, len(bigger)))
-    return [gen.to_yaml(t) for t in ts]
+    # hashes with INTEGER keys on the way (a key segment written as text matches the integer key; the climb back and
+    # name() must report the integer)
+    hand = ["{1: {a: {b: x}}, a: {2: {b: 1}}}", "{a: {1: [x, {2: 1}]}}", "[{1: {a: 1}}, {2: x}]"]
+    return [gen.to_yaml(t) for t in ts] + hand
 
 
 # ---------------------------------------------------------------------------------------
